@@ -188,7 +188,8 @@ Definition add_bindings (bs : list binding) (t : table) : table :=
 Record pg_fixes := mkFixes {
   fx_empty : bool;          (* F10: an empty table is returned as it is (no Rows()[0] peek, no Reduce validation) *)
   fx_alias : bool;          (* F18: a GROUP BY name may be the alias of a projection *)
-  fx_reduce_err : bool      (* F21: return the error of Table.Reduce *)
+  fx_reduce_err : bool;     (* F21: return the error of Table.Reduce *)
+  fx_simul_alias : bool     (* F26: all projected values are read before any alias is written *)
 }.
 
 (* as found: "prj.Binding == g"; after the repair the rule of groupByBindingsChecker: the GROUP BY name is the alias
@@ -233,11 +234,13 @@ Definition project_and_group_by_with (srt : sorter) (fx : pg_fixes) (group_by : 
   match group_by with
   | [] =>
       let t1 := add_bindings (map proj_out projs) t in
-      let rows := map (fun r => fold_left (fun r p =>
-                     match p_alias p, rget r (p_bind p) with
+      (* as found the aliases were written one after the other INTO the row the next projection reads from, so an
+         alias with the name of a pattern binding corrupted a later projection of that binding *)
+      let rows := map (fun r0 => fold_left (fun r p =>
+                     match p_alias p, rget (if fx_simul_alias fx then r0 else r) (p_bind p) with
                      | Some a, Some c => rset r a c
                      | _, _ => r
-                     end) projs r) (t_rows t1) in
+                     end) projs r0) (t_rows t1) in
       project_bindings (map proj_out projs) (mkTable (t_bindings t1) rows)
   | _ =>
       if fx_empty fx && match t_rows t with [] => true | _ => false end then Ok t else
